@@ -36,18 +36,19 @@ def connectEdges (outs ins : List Nat) : Except Err (List (Nat × Nat)) :=
     | _, [o] => .ok (ins.map (fun i => (o, i)))
     | _, _ => .error .valueError
 
+/-- The tasks `insert_workflow` connects from: all output tasks, or the named predecessors. -/
+def insertOuts (g : DiGraph) (preds : Option (List Nat)) : List Nat :=
+  match preds with
+  | none => g.outputNodes
+  | some ps => ps
+
 /-- `WorkflowBuilder.insert_workflow(other, predecessors)`.  Returns the new
     graph of the builder in both outcomes: on refusal `self._g` has ALREADY
     been replaced by the composition (the `raise` comes after the assignment). -/
 def insertWorkflow (g other : DiGraph) (preds : Option (List Nat)) : DiGraph × Option Err :=
-  let outs := match preds with
-    | none => g.outputNodes
-    | some ps => ps
-  let ins := other.inputNodes
-  let g' := g.compose other
-  match connectEdges outs ins with
-  | .ok es => (g'.addEdgesFrom es, none)
-  | .error e => (g', some e)
+  match connectEdges (insertOuts g preds) other.inputNodes with
+  | .ok es => ((g.compose other).addEdgesFrom es, none)
+  | .error e => (g.compose other, some e)
 
 /-- `WorkflowBuilder.__add__` / `Workflow.__add__` -/
 def plus (g h : DiGraph) : DiGraph := g.compose h
